@@ -30,9 +30,9 @@ use std::collections::HashMap;
 use ethnum::U256;
 use storage_layout_extractor::vm::value::{Provenance, RuntimeBoxedVal, RSV, RSVD};
 
-/// Renames uuids by first occurrence. Uuids that were built from a small integer by the parser
-/// (`Uuid::from_u128(n)`) keep that integer, so that inputs echo back unchanged; fresh random
-/// uuids are numbered from 1_000_000 upwards in order of first occurrence.
+/// Renames uuids by first occurrence. Uuids that were built from a small integer -- by the parser
+/// (`Uuid::from_u128(n)`) or by the deterministic identity hook H2 -- keep that integer; random
+/// uuids are numbered from 2^63 + 1_000_000 upwards in order of first occurrence.
 #[derive(Default)]
 pub struct Ids {
     map:  HashMap<uuid::Uuid, u64>,
@@ -42,13 +42,13 @@ pub struct Ids {
 impl Ids {
     pub fn get(&mut self, id: &uuid::Uuid) -> u64 {
         let n = id.as_u128();
-        if n < 1_000_000 {
+        if n < (1u128 << 63) {
             return n as u64;
         }
         if let Some(k) = self.map.get(id) {
             return *k;
         }
-        let k = 1_000_000 + self.next;
+        let k = (1u64 << 63) + 1_000_000 + self.next;
         self.next += 1;
         self.map.insert(*id, k);
         k
@@ -141,4 +141,62 @@ pub fn parse_value(s: &str) -> Result<RuntimeBoxedVal, String> {
         return Err("trailing tokens".into());
     }
     Ok(v)
+}
+
+// ---------------------------------------------------------------------------------------------
+// a counting watchdog answering "stop" from the k-th poll on, with a hard budget so that a
+// non-terminating analysis is observed as "budget exceeded" instead of a hang
+
+use std::cell::Cell;
+
+use storage_layout_extractor::watchdog::Watchdog;
+
+#[derive(Debug)]
+pub struct CountingWatchdog {
+    pub polls:      Cell<u64>,
+    pub stop_at:    Option<u64>,
+    pub budget:     u64,
+    pub every:      usize,
+    pub over_budget: Cell<bool>,
+}
+
+impl CountingWatchdog {
+    pub fn new(every: usize, stop_at: Option<u64>, budget: u64) -> Self {
+        Self { polls: Cell::new(0), stop_at, budget, every, over_budget: Cell::new(false) }
+    }
+}
+
+impl Watchdog for CountingWatchdog {
+    fn should_stop(&self) -> bool {
+        let k = self.polls.get();
+        self.polls.set(k + 1);
+        if k >= self.budget {
+            self.over_budget.set(true);
+            return true;
+        }
+        matches!(self.stop_at, Some(s) if k >= s)
+    }
+
+    fn poll_every(&self) -> usize {
+        self.every
+    }
+}
+
+pub fn exec_err_idx(e: &storage_layout_extractor::error::execution::Error) -> u32 {
+    use storage_layout_extractor::error::execution::Error as E;
+    match e {
+        E::InstructionPointerOutOfBounds { .. } => 0,
+        E::StackDepthExceeded { .. } => 1,
+        E::NoSuchStackFrame { .. } => 2,
+        E::NoSuchThread => 3,
+        E::InvalidStep => 4,
+        E::InvalidOffsetForJump { .. } => 5,
+        E::InvalidJumpTarget { .. } => 6,
+        E::NonExistentJumpTarget { .. } => 7,
+        E::NoConcreteJumpDestination => 8,
+        E::GasLimitExceeded => 9,
+        E::NotJumpTarget { .. } => 10,
+        E::NotJumpSource { .. } => 11,
+        E::StoppedByWatchdog => 12,
+    }
 }
